@@ -99,8 +99,10 @@ def runDec (entry opts rspec accu hex : String) : String :=
 
 /-! ### item-level streams (`wire`) -/
 
+/-- comma-separated hex parts; an empty part is written `z` (so that a list of one empty part
+    differs from the empty list) -/
 def parseHexList (s : String) : Option (List Bytes) :=
-  if s.isEmpty then some [] else (splitOnChar s ',').mapM unhex
+  if s.isEmpty then some [] else (splitOnChar s ',').mapM fun p => if p == "z" then some [] else unhex p
 
 def parseTriples (s : String) : List (Nat × Nat × Nat) :=
   if s.isEmpty then []
